@@ -1,0 +1,44 @@
+//go:build verif
+
+// Contracts for the generated protobuf getters used by the output handlers (compiled only with -tags=verif).
+package gen
+
+//@ func (*Digest).GetHash(x) (r)
+//@   pure
+//@   ensures [field] r == ite(x == nil, "", x.Hash)
+
+//@ func (*Digest).GetSizeBytes(x) (r)
+//@   pure
+//@   ensures [field] r == ite(x == nil, 0, x.SizeBytes)
+
+//@ func (*FileOutput).GetPath(x) (r)
+//@   pure
+//@   ensures [field] r == ite(x == nil, "", x.Path)
+
+//@ func (*FileOutput).GetDigest(x) (r)
+//@   pure
+//@   ensures [field] r == ite(x == nil, nil, x.Digest)
+
+//@ func (*FileOutput).GetIsExecutable(x) (r)
+//@   pure
+//@   ensures [field] r == ite(x == nil, false, x.IsExecutable)
+
+//@ func (*Output).GetKind(x) (r)
+//@   pure
+//@   ensures [field] x != nil ==> r == x.Kind
+
+//@ func (*Output).GetFile(x) (r)
+//@   pure
+//@   ensures [oneof] x != nil ==> r == ite(typeIs(x.Kind, "*gen.Output_File"), asPtr(x.Kind, "*gen.Output_File").File, nil)
+
+//@ func (*DirectoryOutput).GetPath(x) (r)
+//@   pure
+//@   ensures [field] r == ite(x == nil, "", x.Path)
+
+//@ func (*DirectoryOutput).GetTreeDigest(x) (r)
+//@   pure
+//@   ensures [field] r == ite(x == nil, nil, x.TreeDigest)
+
+//@ func (*Output).GetDirectory(x) (r)
+//@   pure
+//@   ensures [oneof] x != nil ==> r == ite(typeIs(x.Kind, "*gen.Output_Directory"), asPtr(x.Kind, "*gen.Output_Directory").Directory, nil)
